@@ -125,6 +125,12 @@ EmitTab == (hist = <<>>) =>
    \A con \in {c \in DOMAIN Cons : Cons[c].mode = mode} :
       PrintT(<<"TAB", ToJson([con |-> con, mode |-> mode, dem0 |-> Cons[con].dem0,
                               need |-> [d \in 0..MaxD(mode) |-> Need(con, d)]])>>)
-EmitBeh == (Len(hist) = MaxLen) => PrintT(<<"BEH", ToJson([mode |-> mode, hist |-> hist])>>)
+(* a history leaves TLC as one integer per step: op * 100000 + result type * 10000 + result.i * 100 + dem *)
+OpIdx(op) == CASE op = "first" -> 0 [] op = "seq" -> 1 [] op = "rest" -> 2 [] op = "next" -> 3 [] op = "count" -> 4
+               [] op = "nth1" -> 5 [] op = "iter" -> 6 [] op = "head" -> 7
+TyIdx(ty) == CASE ty = "nil" -> 0 [] ty = "int" -> 1 [] ty = "cell" -> 2 [] ty = "seq" -> 3 [] ty = "empty" -> 4
+               [] ty = "stop" -> 5 [] ty = "exc" -> 6 [] ty = "none" -> 7
+Code(st) == OpIdx(st.op) * 100000 + TyIdx(st.res.ty) * 10000 + st.res.i * 100 + st.dem
+EmitBeh == (Len(hist) = MaxLen) => PrintT(<<"BEH", ToJson([m |-> mode, h |-> [i \in 1..Len(hist) |-> Code(hist[i])]])>>)
 Emit == EmitTab /\ EmitBeh
 ===================================================================================
